@@ -35,7 +35,7 @@ MANIFEST = {
             "(<= 3 active + <= 2 released children with symbolic demand/supply/utilisation, symbolic request, "
             "factory children of symbolic demand) is an inductive step covering histories of any length; "
             "histories of 2 cycles with environment actions in between are explored on top. z3 proves cover, "
-            "minimality, release discipline and the aggregates for all values on every path.",
+            "minimality, release discipline and the aggregates for all values on every path. Twelve concrete probes of the same harness cover factories whose children differ in demand.",
     "note": "at most 3 spawns per adjustment (deeper paths are cut and counted); children are well-behaved "
             "(keep the demand they are given, demand >= 0); the harness holds strong references so the WeakSet "
             "mortuary never shrinks; floats are exact reals",
